@@ -56,7 +56,7 @@ def optErr : Option Err → HP Unit
 def pkceHandle (cfg : Config) (code : Presented) (verifier : String) (client : Client) : HP Unit := do
   match ← callH (.getPKCE code.sig) with
   | .req pr =>
-    expectOk (.deletePKCE code.sig) (fun _ => retErr .server_error)
+    -- (the session is consumed in `pkcePopulate`, after the exchange succeeded)
     let challenge := pr.formGet "code_challenge"
     let method := pr.formGet "code_challenge_method"
     optErr (pkceValidate cfg challenge method pr.client.isPublic)
@@ -67,6 +67,14 @@ def pkceHandle (cfg : Config) (code : Presented) (verifier : String) (client : C
       if verifier.length == 0 then optErr (validateNoPKCE cfg client.isPublic)
       else HP.fail .invalid_grant
     | _ => HP.fail .server_error
+
+/-- `pkce.Handler.PopulateTokenEndpointResponse`: the code has been exchanged, its PKCE session goes -/
+def pkcePopulate (code : Presented) : HP Unit := do
+  let r ← callH (.deletePKCE code.sig)
+  match r.errKind with
+  | none => return ()
+  | some .not_found => return ()
+  | some _ => HP.fail .server_error
 
 structure RedeemReq where
   clientId : String
@@ -171,6 +179,8 @@ def redeemH (cfg : Config) (now : Time) (q : RedeemReq) : HP Out := do
   expectOk .commitTx (fun _ => rollbackThen .server_error)
   -- OpenIDConnectExplicitHandler.PopulateTokenEndpointResponse
   let idt ← oidcExplicitPopulate q.code client
+  -- pkce.Handler.PopulateTokenEndpointResponse
+  pkcePopulate q.code
   return .tokens atk rt idt (expiresIn req.sess now cfg.atLife) req.grantedScopes
 
 def redeemProg (cfg : Config) (now : Time) (q : RedeemReq) : Prog Out := (redeemH cfg now q).run
